@@ -15,9 +15,16 @@ NAME_VARIANTS = [
 NAMES = NAME_VARIANTS[0]
 
 
+SPELL = [0, 0]     # [alternate spellings on?, running count of names rendered]
+
+
 def set_names(variant):
+    """Variant 1 also spells every other name in a patch header with a doubled slash and a `.` component:
+    another text, the same path (the tool compares paths, not their spellings)."""
     global NAMES
     NAMES = NAME_VARIANTS[variant % len(NAME_VARIANTS)]
+    SPELL[0] = variant % len(NAME_VARIANTS)
+    SPELL[1] = 0
 
 
 def conc(p):
@@ -96,7 +103,12 @@ def fp_hunks(fp):
 def name(p, pre):
     if p == 'NULL':
         return b'/dev/null'
-    full = nbytes(pre + '/' + conc(p))
+    c = conc(p)
+    if SPELL[0]:
+        SPELL[1] += 1
+        if SPELL[1] % 2 == 0:
+            c = '/' + c.replace('/', '/./', 1)          # a//d/./s/e : the same path as a/d/s/e
+    full = nbytes(pre + '/' + c)
     if any(c in full for c in b' \t"\\'):
         return b'"' + full.replace(b'\\', b'\\\\').replace(b'"', b'\\"') + b'"'
     return full
@@ -134,6 +146,7 @@ def patch_name(i):
 
 
 def materialise(w, tree0, series, series_opts=None, strip_pre=('a', 'b')):
+    SPELL[1] = 0            # the same scenario is always spelled the same way
     for p, f in tree0.items():
         if f['ex']:
             ws.write(w, conc(p), content(f['cells']), int(f['mode'], 8) if f['mode'] != 'none' else 0o644)
